@@ -526,6 +526,14 @@ func generate(family string, rng *rand.Rand, thorough bool) []plan {
 			}
 			ab = append(ab, intent{kind: "cancel"})
 			add(plan{stage: &Stage{Kind: "unfold", N: ucap, Seed: rng.Intn(5), A: 2, B: 1}, sched: &scripted{script: ab}, maxMoves: 10, drain: false, gen: "absent-consumer"})
+			// after the cancel the consumer parks in a blocking receive and takes whatever comes: the generator must
+			// notice the cancel although its send never has to wait
+			var pk []intent
+			for j := 0; j < rng.Intn(4); j++ {
+				pk = append(pk, intent{kind: "recv", k: 0})
+			}
+			pk = append(pk, intent{kind: "cancel"}, intent{kind: "park", k: 0}, intent{kind: "park", k: 1})
+			add(plan{stage: &Stage{Kind: "unfold", N: rng.Intn(3), Seed: rng.Intn(5), A: 1, B: 1}, sched: &scripted{script: pk}, maxMoves: 12, drain: false, gen: "parked-consumer"})
 			// fail-fast (Lift) function failing at some point, nobody reading the error channel: the generator hands
 			// its error over with a plain send, returns and closes both channels - whatever the capacity - before
 			// or after the cancel
